@@ -23,7 +23,7 @@ RULES = {
     'B2': mutate.rule_B2, 'WB': mutate.rule_WB, 'N1': mutate.rule_N1, 'N2': mutate.rule_N2, 'N5': mutate.rule_N5, 'D5': mutate.rule_D5, 'RNG': mutate.rule_RNG, 'IDX1': mutate.rule_IDX1, 'SLN': mutate.rule_SLN,
     'E5': ingest.rule_E5, 'CHOKE': ingest.rule_CHOKE, 'LV': ingest.rule_LV, 'WIN': ingest.rule_WIN,
     'G2': mode.rule_G2, 'MIRROR': mode.rule_MIRROR, 'G3': mode.rule_G3, 'G5': mode.rule_G5, 'E8': mode.rule_E8,
-    'H4': misc.rule_H4, 'ESC': misc.rule_ESC, 'DELEG': misc.rule_DELEG, 'PK': misc.rule_PK, 'INTEX': misc.rule_INTEX, 'LZ': misc.rule_LZ, 'REP': misc.rule_REP, 'STALE': misc.rule_STALE,
+    'H4': misc.rule_H4, 'ESC': misc.rule_ESC, 'DELEG': misc.rule_DELEG, 'PK': misc.rule_PK, 'INTEX': misc.rule_INTEX, 'LZ': misc.rule_LZ, 'REP': misc.rule_REP, 'STALE': misc.rule_STALE, 'LOOPX': misc.rule_LOOPX,
     'H5a': luts.rule_H5a, 'H5b': luts.rule_H5b, 'H5c': luts.rule_H5c,
 }
 
@@ -177,12 +177,13 @@ _p('C06', ['C', 'POSW', 'B1', 'POST', 'RB', 'NOMOVE', 'E7', 'D2', 'J1', 'J2', 'O
                "name, post-condition table keyed by method.",
    floors={'POSW': 25, 'B1': 18})
 
-_p('C07', ['E1', 'E2', 'E3', 'E11', 'OPT', 'MEMO', 'BYTEWIN', 'SIB'],
+_p('C07', ['E1', 'E2', 'E3', 'E11', 'OPT', 'MEMO', 'BYTEWIN', 'SIB', 'LOOPX'],
    decided=["an empty pattern raises ValueError in find, rfind, findall, split, replace (and `in`/readto by delegation)",
             "an invalid [start, end) raises: every public function with start/end validates them through _validate_slice "
             "(or forwards them unchanged to one that does) before any other use",
             "bytealigned=None defaults from options.bytealigned before reaching any store-level search",
-            "replace's count limits the non-overlapping matches it selects itself (never handed to findall); no return precedes the validation of start/end; Optional parameters are defaulted with `is None`"],
+            "replace's count limits the non-overlapping matches it selects itself (never handed to findall); no return precedes the validation of start/end; Optional parameters are defaulted with `is None`",
+            'chunked searches process the chunk at the start of the range (a clamped-step cursor is tested against its bound before it is moved), and a search limited by count counts the results it yields - in both variants of the mode-switched findall'],
    declined=["agreement of the fast byte path, general path and chunked reverse path with the brute-force definition; "
              "overlap and ordering of results (run-time search arithmetic)"],
    explanation="Sibling guard agreement over the search entry points; forward-or-validate dataflow of start/end; taint of "
@@ -304,7 +305,7 @@ _p('C02', ['H4', 'H2', 'H3', 'LV', 'OPTDEP', 'A7', 'F2', 'F5', 'INTEX', 'SCALE',
    explanation="Role-dispatch census over the creation and reading routes (resolved calls through Dtype.set_fn/get_fn/"
                "read_fn), structural comparison of the integer setters/getters, table agreement.")
 
-_p('C12', ['G1', 'G2', 'G3', 'G5', 'E8', 'E5', 'E9', 'N1', 'F2', 'IDX1', 'RNG', 'SLN', 'MIRROR'],
+_p('C12', ['G1', 'G2', 'G3', 'G5', 'E8', 'E5', 'E9', 'N1', 'F2', 'IDX1', 'RNG', 'SLN', 'MIRROR', 'LOOPX'],
    decided=["switching the option off restores msb0 behaviour exactly; the switch is complete (both tables assign the "
             "same 13 slots, variants differ and agree on parameters, nothing else rebinds a slot)",
             "whole-value interpretations, ==, hash, len, tobytes and the stored bit order of every ingest route are "
@@ -316,7 +317,8 @@ _p('C12', ['G1', 'G2', 'G3', 'G5', 'E8', 'E5', 'E9', 'N1', 'F2', 'IDX1', 'RNG', 
             "there is one mirror: the store-level lsb0 variants address the bitarray only with a slice returned by "
             "offset_slice_indices_lsb0 or with the index mirror -i - 1 (no hand-made mirrored slice, which is wrong for steps "
             "other than 1); a single position is never widened to [k, k+1) while possibly negative; raw slice bounds are not "
-            "used in arithmetic before normalisation"],
+            "used in arithmetic before normalisation",
+            'the lsb0 variant of findall walks its chunks to the start of the range and counts yielded matches only, as the msb0 variant does'],
    declined=["the mirror arithmetic itself (offset_slice_indices_lsb0 for negative steps, _findall_lsb0 chunking, count= "
              "and bytealigned handling, del with a step): integer arithmetic on run-time values; split() under lsb0 "
              "(not among the operations the property lists; pinned by the project's own test)"],
